@@ -47,13 +47,13 @@ End FindTotalAny.
    its own subroutines *)
 Theorem find_decided_guarded_lemma r text :
   loop_ok r ->
-  (forall start t b p, defs_of r t = Some (b, p) -> p = PNil /\ guarded text start (defs_of r) b /\ callok (defs_of r) b) ->
-  callok (defs_of r) r ->
+  (forall start t b p, defs_of r t = Some (b, p) -> pred_returns text start p /\ guarded text start (defs_of r) b /\ callok text start (defs_of r) b) ->
+  (forall start, callok text start (defs_of r) r) ->
   exists S, sscan r text 0 S /\
   exists F, forall fuel, F <= fuel ->
     exists M, find_matches fuel (compile r 0) text true 0 0 0 = SOk M /\
               map span_of M = S /\ Forall (faithful text) M /\ map mnum M = seq 1 (length M).
 Proof.
   intros Hok Hdefs Hc. apply find_decided_lemma; [exact Hok|].
-  intros off Hoff. exact (outs_total_guarded_lemma text off (defs_of r) (Hdefs off) r Hc (off, []) Hoff).
+  intros off Hoff. exact (outs_total_guarded_lemma text off (defs_of r) (Hdefs off) r (Hc off) (off, []) Hoff).
 Qed.
